@@ -53,6 +53,10 @@ def helper_relations(fb, call_term):
             here = set()
             for a, op, b in _rel.Facts(p).rel:
                 for x, y, o in ((a, b, op), (b, a, {"<": ">", "<=": ">=", "==": "==", "!=": "!="}[op])):
+                    if isinstance(x, Sym) and x.name.startswith("$") and isinstance(y, Sym) and y.name.startswith("$"):
+                        # a free-standing check of two counts: `check(n_names, n_values)?`
+                        here.add((o, (int(x.name[1:]), int(y.name[1:])), "arg-arg"))
+                        continue
                     if not (isinstance(x, App) and x.fn.endswith("::len") and "var_names" in _rel.cstr(x)):
                         continue
                     if isinstance(y, Sym) and y.name.startswith("$"):
@@ -167,6 +171,16 @@ def run(ctx):
                     if edge is None or edge[1] not in doms.get(ub, ()):
                         continue
                     for (op, k, kind) in helper_relations(fb, t_):
+                        if kind == "arg-arg":
+                            i_, j_ = k
+                            if max(i_, j_) >= len(t_["args"]):
+                                continue
+                            ai, aj = org.op_term(t_["args"][i_]), org.op_term(t_["args"][j_])
+                            if "var_names" in ai and re.search(r"::len\(", ai) and re.search(r"::len\(", aj) and mentions(aj) and not mentions(ai):
+                                if (op == "==") or (relaxed and op in ("<=", "<")):
+                                    good = True
+                                    rel = "#names %s #values, established by %s" % (op, (mir.callee_path(t_) or "?").split("::")[-1])
+                            continue
                         if k >= len(t_["args"]):
                             continue
                         at = org.op_term(t_["args"][k])
